@@ -124,7 +124,9 @@ class _BCEL(Identity):
         return out
 
     def inputs(self, a):
-        ins = [Inp("x", a["shape"])]
+        # |x| <= 10: PyTorch's BCE clamps its log terms at -100, so the identity itself ends where sigmoid(x) < e^-100; within
+        # the bound the clamp is provably inactive (coarse exp / log landmarks)
+        ins = [Inp("x", a["shape"], lo=-10, hi=10)]
         if a["t"] == "symbolic":
             ins.append(Inp("t", a["shape"], differentiable=False, lo=0, hi=1))
         return ins
